@@ -31,7 +31,7 @@ func init() {
 			"Non-trivial: non-empty denotation of a path with a prefixed test, or a non-empty function result; distinct by (configuration, map, expression, document, context).",
 		Assume:        []string{"reference evaluator internal/xref with the statement's three matching rules"},
 		MinNontrivial: tierN(5000, 60000),
-		Required:      []string{"config:i-nav", "config:i-navns", "config:ii", "config:iii-rejected", "config:iii-nil-accepted", "fn:name", "fn:local-name", "fn:namespace-uri", "match:different-prefix-same-uri", "rebinding"},
+		Required:      []string{"config:i-nav", "config:i-navns", "config:ii", "config:iii-rejected", "config:iii-nil-accepted", "fn:name", "fn:local-name", "fn:namespace-uri", "match:different-prefix-same-uri", "rebinding", "fn-with-argument-in-predicate", "stacked-predicate-argument"},
 		Families: []Family{
 			witnessFamily("C14"),
 			{Name: "paths", N: tierN(120000, 6000000), Run: c14Paths},
